@@ -18,7 +18,8 @@ package main
 //           payload spec: "C" CreateSession | "D<sid> <quitmsg>" | "I<sid> <irc line>" | "G<duration>"
 //                         | "P<sid> PANIC" (like I; the generator predicts that the handler panics)
 //                         | "J{json}" generic: {"T":"C|D|M|F","S":sid,"C":cmid,"Rev":n,"D":hex,"Ra":hex,"Auth":hex,"Toml":hex}
-//   step  = A | S<t>:ok | S<t>:fail<k> | R | X | Q<tok.tok...>   (tok = idx or idx! (applied as MoD))
+//   step  = A | S<t>:ok | S<t>:fail<n> | SP<t>:<k>:ok | SP<t>:<k>:fail<n> | R | X | Q<tok.tok...>
+//           (SP = Snapshot now, k more entries applied, then Persist; tok = idx or idx! (applied as MoD))
 // <variant> is only read by the model.  Output ($VERIF_OUT), one line per case, see vfDump.
 
 import (
@@ -531,12 +532,17 @@ func (w *vfWorld) describeSnapshot(b []byte) string {
 	return st + ":" + vfList(idxs)
 }
 
-func (w *vfWorld) snapshot(t int64, failAt int) string {
+// snapshot: FSM.Snapshot() now; `late` more log entries are handed to FSM.Apply (raft keeps applying while its
+// snapshot goroutine has not called Persist yet); then Persist of THAT snapshot object.  Like raft, the driver
+// files the snapshot under the position it had when Snapshot() was called: a later Restore is followed by the
+// log entries after that position.
+func (w *vfWorld) snapshot(t int64, failAt int, late int) string {
 	*canaryCompactionStart = t
 	snap, err := w.fsm.Snapshot()
 	if err != nil {
 		return "S:err"
 	}
+	captured := w.applied
 	rs, ok := snap.(*robustSnapshot)
 	if !ok {
 		return "S:badtype"
@@ -553,7 +559,7 @@ func (w *vfWorld) snapshot(t int64, failAt int) string {
 		w.fssN++
 		// raft names snapshots term-index-millis; keep the names distinct and ordered
 		_, tr := raft.NewInmemTransport("")
-		s, err := w.fss.Create(1, uint64(w.applied), uint64(w.fssN), raft.Configuration{}, 0, tr)
+		s, err := w.fss.Create(1, uint64(captured), uint64(w.fssN), raft.Configuration{}, 0, tr)
 		if err != nil {
 			return head + ":sinkerr"
 		}
@@ -561,6 +567,9 @@ func (w *vfWorld) snapshot(t int64, failAt int) string {
 	} else {
 		mem = &vfMemSink{failAt: failAt}
 		sink = mem
+	}
+	for k := 0; k < late && w.applied < len(w.entries); k++ {
+		w.applyNext()
 	}
 	if err := snap.Persist(sink); err != nil {
 		sink.Cancel()
@@ -572,14 +581,14 @@ func (w *vfWorld) snapshot(t int64, failAt int) string {
 	var data []byte
 	if mem != nil {
 		data = append([]byte(nil), mem.buf.Bytes()...)
-		w.persisted = append(w.persisted, vfPersisted{data: data, applied: w.applied})
+		w.persisted = append(w.persisted, vfPersisted{data: data, applied: captured})
 	} else {
 		p, err := w.latest()
 		if err != nil || p == nil {
 			return head + ":lost"
 		}
 		data = p.data
-		if p.applied != w.applied {
+		if p.applied != captured {
 			return head + ":notlatest"
 		}
 	}
@@ -857,7 +866,19 @@ func vfRunCase(line string, base string, n int) (res string) {
 			queries = append(queries, s[1:])
 			continue
 		case strings.HasPrefix(s, "S"):
-			p := strings.SplitN(s[1:], ":", 2)
+			// S<t>:ok|fail<n>  or  SP<t>:<late>:ok|fail<n>
+			late := 0
+			body := s[1:]
+			if strings.HasPrefix(s, "SP") {
+				q := strings.SplitN(s[2:], ":", 3)
+				if len(q) != 3 {
+					rec = "S:badstep"
+					break
+				}
+				late, _ = strconv.Atoi(q[1])
+				body = q[0] + ":" + q[2]
+			}
+			p := strings.SplitN(body, ":", 2)
 			t, err := strconv.ParseInt(p[0], 10, 64)
 			if err != nil || len(p) != 2 {
 				rec = "S:badstep"
@@ -870,7 +891,7 @@ func vfRunCase(line string, base string, n int) (res string) {
 					failAt = 1
 				}
 			}
-			rec = w.snapshot(t, failAt)
+			rec = w.snapshot(t, failAt, late)
 		default:
 			rec = "badstep"
 		}
